@@ -767,7 +767,17 @@ class Interp:
             raise PyRaise('IndexError')
         return i
 
+    @staticmethod
+    def _strip_ellipsis(obj, idx):
+        """numpy: for a 1-D array `a[..., k]` is `a[k]` (the Ellipsis stands for zero axes)"""
+        if isinstance(idx, tuple) and len(idx) == 2 and idx[0] is Ellipsis and isinstance(obj, SArr) and obj.np:
+            return idx[1]
+        if idx is Ellipsis or (isinstance(idx, tuple) and any(x is Ellipsis for x in idx)):
+            raise Unsupported('Ellipsis in an index other than a[..., k] on a 1-D numpy array')
+        return idx
+
     def getitem(self, obj, idx):
+        idx = self._strip_ellipsis(obj, idx)
         if isinstance(obj, (list, tuple, str)):
             if isinstance(idx, slice):
                 if all(isinstance(x, (int, type(None))) for x in (idx.start, idx.stop, idx.step)):
@@ -966,7 +976,19 @@ class Interp:
         leaves = [z3.Lambda([k], z3.Select(l, ik)) for l in a.leaves]
         return SArr(idx.n, leaves, a.kind, a.np)
 
+    def _view_write(self, arr):
+        """a write through a numpy view: outside the subset in general; a view of a *ghost read-only* container (marked
+        'ghost:<name>' by the contract) is an obligation failure - the write would change the container behind it"""
+        v = arr.view_of
+        if isinstance(v, str) and v.startswith('ghost:'):
+            self.oblige(f'no-write-through-view-of-{v[6:]}', z3.BoolVal(False),
+                        {'clause': f'`{v[6:]}` is not modified (a row obtained by basic indexing is a view: copy before writing)'})
+            arr.view_of = None
+            return
+        raise Unsupported('write through a numpy view')
+
     def setitem(self, obj, idx, val):
+        idx = self._strip_ellipsis(obj, idx)
         if isinstance(obj, list):
             idx = self._num(idx)
             if isinstance(idx, int):
@@ -991,7 +1013,7 @@ class Interp:
             return
         if isinstance(obj, SArr):
             if getattr(obj, 'view_of', None) is not None:
-                raise Unsupported('write through a numpy view')
+                self._view_write(obj)
             if isinstance(idx, SArr) and idx.kind == 'int' and obj.np and len(obj.leaves) == 1:
                 return self.arr_scatter(obj, idx, val)
             if isinstance(idx, (slice, SArr, tuple, list)):
@@ -1303,9 +1325,7 @@ class Interp:
             return Fraction(repr(v))
         if isinstance(v, complex):
             raise Unsupported('complex literal')
-        if v is Ellipsis:
-            raise Unsupported('Ellipsis')
-        return v
+        return v      # Ellipsis included: only meaningful as `a[..., k]` on a 1-D array (see _strip_ellipsis)
 
     def e_Name(self, e):
         return self.lookup(e.id)
@@ -1762,7 +1782,7 @@ class Interp:
             if isinstance(cur, SArr) and cur.np:
                 # numpy in-place: same identity is kept
                 if getattr(cur, 'view_of', None) is not None:
-                    raise Unsupported('in-place operation on a numpy view')
+                    self._view_write(cur)
                 cur.leaves, cur.kind = new.leaves, new.kind
                 return
             self.frames[-1].locals[t.id] = new
